@@ -12,7 +12,16 @@ from .base import Check, Outcome, InvalidScenario
 from . import wcommon as W
 from .c06 import gen_wire_ws, type_features
 
-EXPLICIT = 20000
+EXPLICIT = 3000
+
+
+def expandable(node: B.Node) -> bool:
+    """May the *implementation under test* be asked to enumerate this set? Its expand() also runs its own numerical
+    self-check (residues for every divisor 1..64), which is combinatorial for sub-byte repetitions; estimated, never an oracle."""
+    from .c01 import est_cost
+    if node.work() > EXPLICIT:
+        return False
+    return max(est_cost(node, d) for d in (64, 63, 60, 56, 48, 32, 7)) <= 100000
 
 
 def same_set(real, node: B.Node) -> str | None:
@@ -21,9 +30,11 @@ def same_set(real, node: B.Node) -> str | None:
     for m in (8, 16, 64):
         if set(real % m) != node.mod(m):
             return "residues mod %d %s vs model %s" % (m, sorted(set(real % m)), sorted(node.mod(m)))
-    if node.work() <= EXPLICIT:
-        if set(real) != set(node.expand()):
-            return "explicit set %s vs model %s" % (sorted(set(real))[:12], sorted(node.expand())[:12])
+    if expandable(node):
+        from ..worlds.realcanon import safe_expand
+        got = safe_expand(real)
+        if got is not None and got != set(node.expand()):
+            return "explicit set %s vs model %s" % (sorted(got)[:12], sorted(node.expand())[:12])
     return None
 
 
@@ -110,9 +121,24 @@ class C08(Check):
         return {"ws": ws, "prints": prints, "value_seed": rng.randrange(1 << 30), "bases": bases}
 
     def execute(self, scn: dict) -> Outcome:
+        from .c06 import permuted_revision
+        out = Outcome()
+        self._once(scn, out)
+        # history: a second revision (same type names, permuted / renamed fields) analysed in the same process
+        ws2 = permuted_revision(scn["ws"], scn["value_seed"])
+        if ws2 is not None and not out.viol:
+            try:
+                W.validate_ws(ws2)
+            except InvalidScenario:
+                ws2 = None
+            if ws2 is not None:
+                out.stats["second_revision_in_same_process"] += 1
+                self._once(dict(scn, ws=ws2, prints=[]), out)
+        return out
+
+    def _once(self, scn: dict, out: Outcome) -> Outcome:
         from ..worlds.workspace import World
         import pydsdl
-        out = Outcome()
         uni0 = W.validate_ws(scn["ws"])
         # O3: insert print directives (they do not change the types)
         ws = copy.deepcopy(scn["ws"])
@@ -220,6 +246,7 @@ class C08(Check):
                         for p, off in marks:
                             observed.setdefault(re.sub(r"\[\d+\]", "[]", p) if False else p, set()).add(off)
                         out.stats["messages"] += 1
+                    sec_expandable = expandable(sec.node()) and expandable(sec.inner)
                     api = self._api_offsets(pydsdl, real, pydsdl.BitLengthSet(0), "")
                     for path, offs in api.items():
                         if path not in observed:
@@ -227,9 +254,12 @@ class C08(Check):
                         if offs.min > min(observed[path]) or offs.max < max(observed[path]):
                             out.fail("C08.sound", "%s[%d]: field %s was written at bits %s, outside the offset set [%d..%d]" % (k, si, path, sorted(observed[path])[:8], offs.min, offs.max), "sound")
                             continue
-                        small = (offs.max - offs.min) <= 4096 and sec.node().work() <= EXPLICIT and sec.inner.work() <= EXPLICIT
+                        small = (offs.max - offs.min) <= 4096 and sec_expandable
+                        es = None
                         if small:
-                            es = set(offs)
+                            from ..worlds.realcanon import safe_expand
+                            es = safe_expand(offs)
+                        if es is not None:
                             if not observed[path] <= es:
                                 out.fail("C08.sound", "%s[%d]: field %s was written at bits %s which are not in the offset set %s" % (k, si, path, sorted(observed[path] - es)[:8], sorted(es)[:16]), "sound")
                             elif exhaustive and not has_delimited and observed[path] != es:
